@@ -457,6 +457,17 @@ impl BD {
         bb
     }
 
+    /// The same state through `BoardBuilder::setup`.
+    pub fn builder_setup(&self) -> BoardBuilder {
+        let mut v: Vec<(Square, Piece, Color)> = Vec::new();
+        for i in 0..64 {
+            if let Some((p, c)) = self.sq[i] {
+                v.push((sq(i), p, c));
+            }
+        }
+        BoardBuilder::setup(&v, self.stm, cr(self.wcr), cr(self.bcr), self.ep.map(File::from_index))
+    }
+
     pub fn text(&self) -> String {
         let mut o = String::with_capacity(80);
         for i in 0..64 {
